@@ -330,7 +330,7 @@ def shipped(ctx, cssutils):
             node_roundtrips(ctx, cssutils, sheet, feats, 'shipped:' + fn, prefs={'resolveVariables': False})
 
 
-EDITS = ['setprop', 'removeprop', 'appendsel', 'insertrule', 'deleterule', 'setmedia', 'setmedia', 'addcomment', 'setvalue', 'importedit', 'importedit', 'blocktext', 'selectortext', 'pageedit', 'encoding']
+EDITS = ['setprop', 'removeprop', 'appendsel', 'insertrule', 'deleterule', 'setmedia', 'setmedia', 'mediumedit', 'mediumedit', 'addcomment', 'setvalue', 'importedit', 'importedit', 'blocktext', 'selectortext', 'pageedit', 'encoding']
 
 
 def random_edit(rng, cssutils, sheet):
@@ -385,6 +385,24 @@ def random_edit(rng, cssutils, sheet):
             else:
                 r.media = t
             return [kind, t, type(r).__name__]
+        if kind == 'mediumedit':
+            # list-level edits of a parsed media list (its items may carry comments): append what is there already or something new, delete one
+            ms = [r for r in rs if r.type in (r.MEDIA_RULE, r.IMPORT_RULE) and r.media.length]
+            if not ms:
+                return None
+            r = rng.choice(ms)
+            present = [r.media.item(i) for i in range(r.media.length) if r.media.item(i)]
+            how = rng.choice(['append-present', 'append-new', 'delete'])
+            if how == 'append-present' and present:
+                t = rng.choice(present)
+                r.media.appendMedium(rng.choice([t, t.upper()]))
+            elif how == 'delete' and len(present) > 1:
+                t = rng.choice(present)
+                r.media.deleteMedium(t)
+            else:
+                t = rng.choice(['aural', 'embossed', 'tty'])
+                r.media.appendMedium(t)
+            return [kind, how, t, type(r).__name__]
         if kind == 'importedit':
             ms = [r for r in rs if r.type == r.IMPORT_RULE]
             if not ms:
